@@ -336,6 +336,19 @@ def case_c18(rep, spec):
                               {"spec": spec, "point": np.asarray(x).tolist()})
                 continue
             if not np.isfinite(lp):
+                # minus infinity is a legitimate value (outside the support, underflow) -- but not at an isolated point whose
+                # float neighbours on both sides have finite densities: that is an internal NaN masked as -inf, and it
+                # poisons a training step just the same
+                if lp == -np.inf:
+                    try:
+                        xn = np.asarray(x, float)
+                        nb = [float(d.log_prob(jnp.asarray(np.nextafter(xn, s * np.inf)), c)) for s in (-1, 1)]
+                        if all(np.isfinite(v) for v in nb):
+                            rep.violation({**key, "what": "log_prob is -inf at an isolated point"},
+                                          f"{z['name']} [{oname}]: log_prob({xn.ravel().tolist()}) = -inf, but {nb[0]} and {nb[1]} at the "
+                                          f"float neighbours on either side", {"spec": spec, "point": xn.tolist()})
+                    except Exception:  # noqa: BLE001
+                        pass
                 rep.count(1)
                 continue
             if uses_bisection:       # reverse-mode through the search is refused by JAX by design: value clause only
